@@ -107,7 +107,7 @@ def compile_run(workdir, name, files, stdin_text, timeout=120, extra_flags=()):
         with open(os.path.join(d, fn), "w") as f:
             f.write(text)
     exe = os.path.join(d, "m")
-    c = subprocess.run(["g++"] + CXXFLAGS + list(extra_flags) + ["-I", MOCKQT, "-I", os.path.join(MOCKQT, "inc"), "-I", workdir, "-I", d,
+    c = subprocess.run(["g++"] + CXXFLAGS + list(extra_flags) + ["-I", d, "-I", workdir, "-I", MOCKQT, "-I", os.path.join(MOCKQT, "inc"),
                         "-o", exe, os.path.join(d, "main.cpp")], stdout=subprocess.PIPE, stderr=subprocess.PIPE, text=True)
     if c.returncode != 0:
         return c.returncode, c.stderr, None, "", ""
@@ -125,6 +125,6 @@ def syntax_check(workdir, name, files, extra_flags=()):
         with open(os.path.join(d, fn), "w") as f:
             f.write(text)
     c = subprocess.run(["g++", "-std=c++17", "-fsyntax-only", "-Wall", "-Werror=return-type"] + list(extra_flags) +
-                       ["-I", MOCKQT, "-I", os.path.join(MOCKQT, "inc"), "-I", workdir, "-I", d, os.path.join(d, "main.cpp")],
+                       ["-I", d, "-I", workdir, "-I", MOCKQT, "-I", os.path.join(MOCKQT, "inc"), os.path.join(d, "main.cpp")],
                        stdout=subprocess.PIPE, stderr=subprocess.PIPE, text=True)
     return c.returncode, c.stderr
